@@ -629,12 +629,17 @@ func (v Value) Export() (interface{}, error) {
 }
 
 func (v Value) export() interface{} {
-	return v.exportVisited(map[*object]interface{}{})
+	return v.exportVisited(map[*object]interface{}{}, 0)
 }
 
 // exportVisited is export with a record of the objects already exported (or
 // being exported), so that cyclic structures terminate.
-func (v Value) exportVisited(visited map[*object]interface{}) interface{} {
+func (v Value) exportVisited(visited map[*object]interface{}, depth int) interface{} {
+	if depth > 10000 {
+		// Not a cycle (those are cut by visited) but a structure that makes itself
+		// up as it is read, e.g. a getter returning a new object with that getter.
+		panic(newError(nil, "RangeError", 0, "Maximum call stack size exceeded"))
+	}
 	switch v.kind {
 	case valueUndefined:
 		return nil
@@ -679,7 +684,7 @@ func (v Value) exportVisited(visited map[*object]interface{}) interface{} {
 				if !obj.hasProperty(name) {
 					continue
 				}
-				value := obj.get(name).exportVisited(visited)
+				value := obj.get(name).exportVisited(visited, depth+1)
 
 				t = reflect.TypeOf(value)
 
@@ -731,7 +736,7 @@ func (v Value) exportVisited(visited map[*object]interface{}) interface{} {
 		obj.enumerate(false, func(name string) bool {
 			value := obj.get(name)
 			if value.IsDefined() {
-				result[name] = value.exportVisited(visited)
+				result[name] = value.exportVisited(visited, depth+1)
 			}
 			return true
 		})
@@ -1058,8 +1063,9 @@ func stringToReflectValue(value string, kind reflect.Kind) (reflect.Value, error
 		return reflect.ValueOf(value), nil
 	}
 
-	// FIXME This should end up as a TypeError?
-	panic(fmt.Errorf("invalid conversion of %q to reflect.Kind: %v", value, kind))
+	// A panic as before, but one a script can catch and the API boundary
+	// returns as an error.
+	panic(reflectConversionError(fmt.Errorf("TypeError: invalid conversion of %q to reflect.Kind: %v", value, kind)))
 }
 
 // MarshalJSON implements json.Marshaller.
